@@ -54,7 +54,40 @@ class PairIter:
                 return self.local_idx[e['id']]
             if e.get('id') in getattr(self, 'zero_vars', ()):
                 return 0
+            if e.get('id') in getattr(self, 'lazy_idx', {}):
+                # an offset chosen before the sweep by the case at hand (`size_t keep = res ? bit : 0;`)
+                return self._offset(self.lazy_idx[e['id']])
             raise NotPairwise('index variable ' + e['name'])
+        if e['k'] == 'cond':
+            return self.cell(e['t']) if self.cond(e['c']) else self.cell(e['f'])
+        if e['k'] == 'bin' and e['op'] == '+' and getattr(self, 'lazy_idx', None):
+            # base + offset [+ offset-free zero variable]: block start, an offset that is 0 or 2^q, the position inside the half
+            terms = []
+
+            def flat(x):
+                x = self._peel(SX.strip(x))
+                if SX.is_node(x) and x.get('k') == 'bin' and x.get('op') == '+':
+                    flat(x['l'])
+                    flat(x['r'])
+                else:
+                    terms.append(x)
+            flat(e)
+            if any(SX.is_node(t_) and t_.get('k') == 'ref' and t_.get('id') in self.lazy_idx for t_ in terms):
+                zv = getattr(self, 'zero_vars', ())
+                seen, off = set(), 0
+                for t_ in terms:
+                    if SX.is_node(t_) and t_.get('k') == 'ref' and t_.get('id') in zv and t_['id'] not in seen:
+                        seen.add(t_['id'])
+                    elif SX.is_node(t_) and t_.get('k') == 'ref' and t_.get('id') in self.lazy_idx and off == 0:
+                        off += self._offset(self.lazy_idx[t_['id']])
+                        seen.add(t_['id'])
+                    elif self._is_bit(t_) and off == 0:
+                        off += 1
+                    else:
+                        raise NotPairwise('index expression ' + SX.show(e)[:40])
+                if zv and set(zv) <= seen:
+                    return off
+                raise NotPairwise('index expression ' + SX.show(e)[:40])
         if e['k'] == 'bin':
             l, r = SX.strip(e['l']), SX.strip(e['r'])
             zv = getattr(self, 'zero_vars', ())
@@ -85,6 +118,19 @@ class PairIter:
         while SX.is_node(e) and e.get('k') == 'cast':
             e = SX.strip(e['e'])
         return e
+
+    def _offset(self, e):
+        """0 or 1 for an offset expression that is 0 or 2^q, decided by the case variables"""
+        e = self._peel(SX.strip(e))
+        if SX.is_node(e) and e.get('k') == 'int' and e.get('v') == 0:
+            return 0
+        if self._is_bit(e):
+            return 1
+        if SX.is_node(e) and e.get('k') == 'cond':
+            return self._offset(e['t']) if self.cond(e['c']) else self._offset(e['f'])
+        if SX.is_node(e) and e.get('k') == 'ref' and e.get('id') in getattr(self, 'lazy_idx', {}):
+            return self._offset(self.lazy_idx[e['id']])
+        raise NotPairwise('offset ' + SX.show(e)[:40])
 
     def _is_bit(self, e):
         while SX.is_node(e) and e['k'] == 'cast':
@@ -360,6 +406,130 @@ def _counted(s):
     return v, cp[2], (w[1] if w[2] == '+=' else None)
 
 
+def _counted_from(s):
+    """for (T v = START; v < B; ++v | v += S) with v untouched in the body and no break/return → (var decl, start, bound, stride|None)"""
+    if s.get('k') != 'for' or not s.get('init') or s['init']['k'] != 'decls' or len(s['init']['d']) != 1:
+        return None
+    v = s['init']['d'][0]
+    if not SX.is_node(v.get('init')):
+        return None
+    cp = SX.cmp_parts(s.get('c')) if SX.is_node(s.get('c')) else None
+    if not cp or cp[0] != '<' or SX.strip(cp[1]).get('id') != v['id']:
+        return None
+    w = SX.write_target(s['inc']) if SX.is_node(s.get('inc')) else None
+    if not w or SX.strip(w[0]).get('id') != v['id'] or w[2] not in ('++', '+='):
+        return None
+    for n in SX.walk(s['body'], into_lambdas=False):
+        if n['k'] in ('break', 'return'):
+            return None
+        ww = SX.write_target(n)
+        if ww and SX.is_node(SX.strip(ww[0])) and SX.strip(ww[0]).get('id') == v['id']:
+            return None
+    return v, v['init'], cp[2], (w[1] if w[2] == '+=' else None)
+
+
+def _lin(e, bit_ids):
+    """linear form {symbol: coefficient} of an index expression over the mask 2^q ('BIT'), variables ('v', id) and 1 (constant)"""
+    e = SX.strip(e)
+    while SX.is_node(e) and e.get('k') in ('cast', 'initlist'):
+        e = SX.strip(e['e']) if e['k'] == 'cast' else (SX.strip(e['items'][0]) if len(e.get('items', [])) == 1 else None)
+    if not SX.is_node(e):
+        return None
+    k = e['k']
+    if k == 'int':
+        return {1: e['v']} if e['v'] else {}
+    if k == 'ref':
+        return {'BIT': 1} if e.get('id') in bit_ids else {('v', e.get('id')): 1}
+    if k == 'bin' and e['op'] in ('+', '-'):
+        a, b = _lin(e['l'], bit_ids), _lin(e['r'], bit_ids)
+        if a is None or b is None:
+            return None
+        out = dict(a)
+        for kk, vv in b.items():
+            out[kk] = out.get(kk, 0) + (vv if e['op'] == '+' else -vv)
+        return {kk: vv for kk, vv in out.items() if vv}
+    if k == 'bin' and e['op'] == '*':
+        a, b = _lin(e['l'], bit_ids), _lin(e['r'], bit_ids)
+        for x, y in ((a, b), (b, a)):
+            if x is not None and y is not None and set(x) <= {1}:
+                c = x.get(1, 0)
+                return {kk: vv * c for kk, vv in y.items() if vv * c}
+        return None
+    if k == 'bin' and e['op'] == '<<':
+        a, b = _lin(e['l'], bit_ids), _lin(e['r'], bit_ids)
+        if a is not None and b is not None and set(b) <= {1} and 0 <= b.get(1, 0) < 8:
+            return {kk: vv << b.get(1, 0) for kk, vv in a.items()}
+    return None
+
+
+def _halves(s, amp, bit_ids, aliases):
+    """`for (block = 0 | bit; block < size; block += 2·bit) { for (i = block [+ bit]; i < block + bit [+ bit]; ++i) BODY … }` — the state
+    vector walked block by block, each inner loop over the half with bit q clear or the half with bit q set (or over the offsets
+    j ∈ [0, bit) of a pair) → list of visits {'iv', 'b', 'zero', 'body'} in execution order; None when the nest is not of this form"""
+    c = _counted_from(s)
+    if not c or not _is_size(c[2], amp, aliases) or c[3] is None:
+        return None
+    v, start, bound, stride = c
+    if _lin(stride, bit_ids) != {'BIT': 2}:
+        return None
+    st = _lin(start, bit_ids)
+    if st == {}:
+        base = 0
+    elif st == {'BIT': 1}:
+        base = 1
+    else:
+        return None
+    inner = s['body']['body'] if s['body'].get('k') == 'block' else [s['body']]
+    if not inner or any(x.get('k') != 'for' for x in inner):
+        return None
+    B = ('v', v['id'])
+    visits = []
+    for lp in inner:
+        ci = _counted_from(lp)
+        if not ci or not (ci[3] is None or _lin(ci[3], bit_ids) == {1: 1}):
+            return None
+        iv, lo, hi, _ = ci
+        lo_l, hi_l = _lin(lo, bit_ids), _lin(hi, bit_ids)
+        if any(x.get('k') == 'ref' and x.get('id') == v['id'] and False for x in ()):
+            return None
+        if lo_l == {} and hi_l == {'BIT': 1} and base == 0:
+            visits.append({'iv': None, 'b': 0, 'zero': {v['id'], iv['id']}, 'body': lp['body']})
+        elif lo_l == {B: 1} and hi_l == {B: 1, 'BIT': 1}:
+            visits.append({'iv': iv['id'], 'b': base, 'zero': set(), 'body': lp['body']})
+        elif lo_l == {B: 1, 'BIT': 1} and hi_l == {B: 1, 'BIT': 2} and base == 0:
+            visits.append({'iv': iv['id'], 'b': 1, 'zero': set(), 'body': lp['body']})
+        else:
+            return None
+        # the block variable itself must not index the state inside a half loop (only through the inner variable)
+    return visits
+
+
+def run_visits(it, visits, pre=None):
+    """one pair carried through the visits of a sweep plan, in order → (final cells, accumulated sums, cells written)"""
+    cur = tuple(pre or A)
+    acc = {}
+    wrote = set()
+    for vs in visits:
+        it.iv = vs['iv']
+        it.zero_vars = set(vs['zero'])
+        cells, a = it.run(vs['body'], vs['b'], pre=cur)
+        cur = (cells.get(0, cur[0]), cells.get(1, cur[1]))
+        wrote |= set(cells)
+        for k_, x in a.items():
+            acc[k_] = acc.get(k_, 0) + x
+    it.zero_vars = set()
+    return cur, acc, wrote
+
+
+def sweep_visits(sweep):
+    """the visits a recognised sweep makes to one pair of cells, in order"""
+    if sweep[0] == 'flat':
+        return [{'iv': sweep[1]['id'], 'b': 0, 'zero': set(), 'body': sweep[2]}, {'iv': sweep[1]['id'], 'b': 1, 'zero': set(), 'body': sweep[2]}]
+    if sweep[0] == 'blocked':
+        return [{'iv': None, 'b': 0, 'zero': set(sweep[1]), 'body': sweep[2]}]
+    return list(sweep[1])
+
+
 def _is_size(e, amp, aliases):
     e = SX.strip(e)
     while SX.is_node(e) and e.get('k') == 'cast':
@@ -387,10 +557,14 @@ def state_sweep(s, amp, bit_ids, aliases=()):
     """('flat', loop var decl, body) | ('blocked', (outer var id, inner var id), body) | None"""
     c = _counted(s)
     if not c or not _is_size(c[1], amp, aliases):
-        return None
+        hv = _halves(s, amp, bit_ids, aliases)      # (a block loop may start at 2^q: the halves with bit q set)
+        return ('plan', hv) if hv is not None else None
     v, bound, stride = c
     if stride is None or (SX.is_node(SX.strip(stride)) and SX.strip(stride).get('k') == 'int' and SX.strip(stride)['v'] == 1):
         return ('flat', v, s['body'])
+    hv = _halves(s, amp, bit_ids, aliases)
+    if hv is not None and not (len(hv) == 1 and hv[0]['iv'] is None):
+        return ('plan', hv)
     # stride 2·bit with a single inner loop over [0, bit)
     st = SX.strip(stride)
     two_bit = False
@@ -424,6 +598,8 @@ def sweep_final(it, sweep):
     if sweep[0] == 'flat':
         it.iv = sweep[1]['id']
         return pair_final(it, sweep[2])
+    if sweep[0] == 'plan':
+        return run_visits(it, sweep[1])[0]
     it.iv = None
     it.zero_vars = set(sweep[1])
     c0, _ = it.run(sweep[2], 0)
@@ -436,8 +612,9 @@ class QuadIter:
     four-cell group is a dict cell → symbol.  Supports index algebra with the two masks, bit tests, bool locals, continue,
     std::swap of two cells and plain cell assignments."""
 
-    def __init__(self, amp, iv, cbits, tbits):
+    def __init__(self, amp, iv, cbits, tbits, bothbits=()):
         self.amp, self.iv, self.cbits, self.tbits = amp, iv, set(cbits), set(tbits)
+        self.bothbits = set(bothbits)          # locals holding controlBit | targetBit
 
     def _p(self, e):
         e = SX.strip(e)
@@ -452,6 +629,12 @@ class QuadIter:
                 return 'c'
             if e.get('id') in self.tbits:
                 return 't'
+            if e.get('id') in self.bothbits:
+                return 'ct'
+        if SX.is_node(e) and e.get('k') == 'bin' and e.get('op') in ('|', '+', '^'):
+            a, b = self.mask(e['l']), self.mask(e['r'])
+            if {a, b} == {'c', 't'}:
+                return 'ct'          # the two masks are distinct single bits (control ≠ target is checked before the sweep)
         return None
 
     def cell(self, e):
@@ -467,6 +650,13 @@ class QuadIter:
         if e['k'] == 'bin' and e['op'] in ('|', '^', '+', '-'):
             for a, b in ((e['l'], e['r']), (e['r'], e['l'])):
                 m = self.mask(b)
+                if m == 'ct':
+                    c, t = self.cell(a)
+                    if e['op'] == '|':
+                        return (1, 1)
+                    if e['op'] == '^':
+                        return (1 - c, 1 - t)
+                    raise NotPairwise('index expression ' + SX.show(e)[:40])
                 if m:
                     c, t = self.cell(a)
                     old = c if m == 'c' else t
@@ -501,6 +691,9 @@ class QuadIter:
         if k == 'bin' and e['op'] == '&':
             for a, b in ((e['l'], e['r']), (e['r'], e['l'])):
                 m = self.mask(b)
+                if m == 'ct':
+                    c, t = self.cell(a)
+                    return bool(c or t)
                 if m:
                     c, t = self.cell(a)
                     return bool(c if m == 'c' else t)
